@@ -10,6 +10,8 @@ decides timeouts.  Commands are described by what they do when run:
   slow   - exits with `code` once it has been released (its stdin closed), never before
   hang   - never exits by itself
   bad    - cannot be started (`OSError` from `procopen`)
+A command may be `remote` (`cmd[0]` is ssh / rsync) and may carry a second callback (`cb255`), which
+`_run_command_exit` calls instead of the ordinary one when the remote command exits 255.
 
 Two behaviours of the code are parameters (`Flags`), probed from the live code into
 `Generated/SubProcFlags.lean`:
@@ -29,6 +31,10 @@ structure Cmd where
   submit : Bool
   kind : Kind
   code : Int
+  /-- `ctx.cmd[0]` is `ssh` or `rsync`: exit status 255 means "host unreachable" -/
+  remote : Bool
+  /-- the command was put with a `callback_255` -/
+  cb255 : Bool
   deriving DecidableEq, Repr, Inhabited
 
 /-- an entry of `SubProcPool.runnings` -/
@@ -51,6 +57,7 @@ def Flags.code : Flags := ⟨codeDropStop, codeDropTerm⟩
 /-- what the callback is told -/
 inductive Outcome where
   | exit (code : Int)   -- the command ran and exited
+  | host255             -- ssh / rsync exited 255 and the command has a 255 callback: that one is called INSTEAD
   | timeout             -- killed by the pool: ran longer than the pool timeout
   | killed              -- killed by `terminate()`
   | stopping            -- not run: pool closed / stopping (ret_code 999)
@@ -93,6 +100,12 @@ inductive Op where
 def finished (released : List Nat) (c : Cmd) : Bool :=
   c.kind == .quick || (c.kind == .slow && released.contains c.id)
 
+/-- `_run_command_exit` for a command that ran: an ssh / rsync command that exited 255 is reported
+through its `callback_255` when it has one (and only through that one), everything else through
+the ordinary callback -/
+def exitOutcome (c : Cmd) : Outcome :=
+  if c.remote && c.code == 255 && c.cb255 then .host255 else .exit c.code
+
 /-- first loop of `process()`: children found exited are called back, children past their
 deadline are killed and called back, the others stay. `killedAll` = after `terminate()` killed
 every child: one that had not finished by itself reports the kill. -/
@@ -102,7 +115,7 @@ def reap (now : Int) (exited : List Nat) (killedAll : Bool) (released : List Nat
   | r :: rs =>
     let rest := reap now exited killedAll released rs
     if exited.contains r.cmd.id then
-      let o := if killedAll && !finished released r.cmd then Outcome.killed else Outcome.exit r.cmd.code
+      let o := if killedAll && !finished released r.cmd then Outcome.killed else exitOutcome r.cmd
       (rest.1, .cb r.cmd.id o :: rest.2)
     else if now > r.deadline then (rest.1, .cb r.cmd.id .timeout :: rest.2)
     else (r :: rest.1, rest.2)
